@@ -95,6 +95,7 @@ static vf::Verdicts eval(const Spec &s, vf::Ctx &ctx) {
     Snapshot before = snapshot(c);
     int idx = 0;
     bool legalSeen = false;
+    std::optional<Circuit> kept;
     auto cb = PlacementCallback([&](PlacementStep st) {
       // structural setters must be refused and change nothing
       Snapshot in = snapshot(c);
@@ -105,6 +106,9 @@ static vf::Verdicts eval(const Spec &s, vf::Ctx &ctx) {
       if (!diffStructure(in, after).empty() || !samePlacement(in, after))
         add("refused-setter-changed-state", std::string(stageName[stage]) + " callback #" + std::to_string(idx) + ": " + diffStructure(in, after));
       if (st == PlacementStep::Detailed) legalSeen = true;
+      // "keep the best intermediate placement": a copy of the circuit taken inside the callback (at the fault index, or at the
+      // first callback of a run without fault)
+      if (idx == std::max(k, 0)) kept = c;
       if (idx++ == k) throw Thrown();
     });
     CallResult r = runStage(c, stage, params, cb);
@@ -129,6 +133,21 @@ static vf::Verdicts eval(const Spec &s, vf::Ctx &ctx) {
         // fault after a successful legalization: untouched input or a legal placement
         if (!samePlacement(before, after) && !legality(c).empty())
           add("fault-left-illegal-placement", "fault at #" + std::to_string(k) + ": " + placementStr(c) + " (" + legality(c) + ")");
+      }
+    }
+    // the copy kept from inside the callback is a circuit of its own: once a placement call on it has ended, it accepts
+    // modifications like any other
+    if (kept) {
+      for (int next = 0; next < 3; ++next) {
+        Circuit a = *kept;
+        ColoquinteParameters ok(3, 0);
+        ok.global.maxNbSteps = 3;
+        CallResult ra = runStage(a, next, ok, {});
+        std::string ref3 = settersAfter(a);
+        if (!ref3.empty())
+          add(ra.threw ? "setter-refused-after-call-threw" : "setter-refused-after-call-returned",
+              std::string("copy taken inside a ") + stageName[stage] + " callback, then " + stageName[next] + ": " + ref3);
+        ctx.count("follow_up_calls_on_copies_taken_in_callbacks");
       }
     }
     // a further placement call behaves as on a fresh object with the same public state
@@ -222,7 +241,7 @@ int main(int argc, char **argv) {
       "for every (circuit in {4 feasible global-placement circuits, over-full, unsatisfiable polarity, a movable cell of height 0}(+1/7 of the GP alphabet in thorough) x stage in "
       "{placeGlobal, legalize, placeDetailed} x parameter set in {4 valid incl. the corners nbPasses=0 / shiftMaxNbCells=0 / nbInitialSteps=1, 3 rejected}): dry run counting K callbacks, then K+1 runs with the callback "
       "throwing at index k (none, 0..K-1); in every callback all seven guarded setters are attempted; after the call ended every setter, check() and each "
-      "of the three stages as a follow-up call are exercised and compared with the same call on a fresh object; an evaluation = one fault point; "
+      "of the three stages as a follow-up call are exercised and compared with the same call on a fresh object; a copy of the circuit taken inside the callback is driven through each stage and must accept every setter afterwards; an evaluation = one fault point; "
       "non-trivial = the run has at least one callback";
   c.bounds = "all fault indices of every run; follow-up depth 2 calls";
   c.assumptions = {"the callback is the only fault source; allocation failure is not injected"};
